@@ -1,6 +1,7 @@
 import NeumannModel.Chain.Props
 import NeumannModel.Chain.Lemmas2
 import NeumannModel.Chain.Lemmas3
+import NeumannModel.Chain.Lemmas4
 /-
   C16 — property theorems, part 2: restart (`Chain::initialize` over an existing store), `history`, replica
   `apply_block` (rejections, proposer/replica agreement), commit calls under EVERY interleaving (what the
@@ -285,6 +286,84 @@ theorem finished_workspace_cannot_commit (C : Crypto) (n : Node) (w ts : Nat) (w
 example : let n := runOps drvCrypto (initNode drvCrypto cfg0 0) [.begin, .put 0 1 1, .commit 0 5]
     (commit drvCrypto n 0 6).1 = n ∧ (commit drvCrypto n 0 6).2.res = some .notActive ∧
     chainTxs n.chain.store n.chain.height = [.put 1 1] := by decide +kernel
+
+/-- the ids a client call adds to the chain: those of a successful `commit` (the workspace and the workspaces
+    merged into its block); nothing for every other call -/
+def newIds (C : Crypto) (n : Node) : Op → List Nat
+  | .commit w ts => commitIds C n w ts
+  | _ => []
+
+/-- sequential histories together with the list of workspace ids whose commit returned `Ok` (or that were merged
+    into such a commit), in the order of the calls -/
+inductive SeqReachLog (C : Crypto) (cfg : Config) : Node → List Nat → Prop where
+  | init (ts : Nat) : SeqReachLog C cfg (initNode C cfg ts) []
+  | step (n : Node) (order : List Nat) (op : Op) : SeqReachLog C cfg n order → OpOk n op →
+      SeqReachLog C cfg (stepOp C n op) (order ++ newIds C n op)
+
+/-- THE CHAIN CONTAINS EACH COMMITTED WORKSPACE EXACTLY ONCE.  After every sequential history (any number of
+    workspaces, begin / put / delete / compare-and-swap / delta / commit / rollback in any order, auto-merge on or
+    off, failed commits early and late included): the transactions of blocks `1..=height`, in chain order, are the
+    concatenation of the operation lists of the workspaces in `order` — the workspaces whose `commit` returned `Ok`
+    and those merged into such a block, in commit order; no workspace occurs twice in `order`; every one of them is
+    in state `Committed`.  So no committed operation is lost or duplicated, and nothing else is in the chain. -/
+theorem each_committed_workspace_exactly_once (C : Crypto) (cfg : Config) (n : Node) (order : List Nat)
+    (h : SeqReachLog C cfg n order) :
+    chainTxs n.chain.store n.chain.height = order.flatMap (opsOf n.wss) ∧ order.Nodup ∧
+    ∀ id ∈ order, stateOf n.wss id = some .committed := by
+  suffices hL : LogInv n order from ⟨hL.txs, hL.nodup, hL.committed⟩
+  induction h with
+  | init ts =>
+    exact ⟨⟨List.nodup_nil, fun x hx => by cases hx⟩, rfl, List.nodup_nil, fun id hid => by cases hid⟩
+  | step n order op _ hop ih =>
+    cases op with
+    | begin => simpa [newIds, stepOp] using logInv_begin n order ih
+    | put w k v => simpa [newIds, stepOp] using logInv_addOp n order w _ ih
+    | del w k => simpa [newIds, stepOp] using logInv_addOp n order w _ ih
+    | cas w k e v => simpa [newIds, stepOp] using logInv_addOp n order w _ ih
+    | dir w d => simpa [newIds, stepOp] using logInv_setDir n order w d ih
+    | commit w ts => exact logInv_commit C n order w ts ih
+    | rollback w =>
+      have := logInv_rollback n order w ih (by
+        intro ws hws
+        simp only [OpOk, hws] at hop
+        exact hop)
+      simpa [newIds, stepOp] using this
+
+/-- non-vacuity: three orthogonal workspaces, auto-merge on: the commit of workspace 0 merges 1 and 2 into one
+    block; a fourth workspace commits later; a second commit of workspace 1 is refused.  `order` = [0, 1, 2, 3] and
+    the chain holds the four operation lists in that order. -/
+def exLogHistory : List Op :=
+  [.begin, .dir 0 1, .begin, .dir 1 2, .begin, .dir 2 3, .put 0 100 1, .put 1 200 2, .cas 2 300 none 3,
+   .commit 0 5, .begin, .put 3 1 4, .commit 1 6, .commit 3 7]
+
+/-- a history run with its ghost list -/
+def runOpsLog (C : Crypto) : Node → List Nat → List Op → Node × List Nat
+  | n, order, [] => (n, order)
+  | n, order, op :: ops => runOpsLog C (stepOp C n op) (order ++ newIds C n op) ops
+
+theorem seqReachLog_of_runOps (C : Crypto) (cfg : Config) :
+    ∀ (ops : List Op) (n : Node) (order : List Nat), SeqReachLog C cfg n order →
+      (∀ i (h : i < ops.length), OpOk (runOps C n (ops.take i)) ops[i]) →
+      SeqReachLog C cfg (runOpsLog C n order ops).1 (runOpsLog C n order ops).2 := by
+  intro ops
+  induction ops with
+  | nil => intro n order h _; exact h
+  | cons op ops ih =>
+    intro n order h hok
+    simp only [runOpsLog]
+    refine ih _ _ (SeqReachLog.step n order op h (by have := hok 0 (by simp); simpa [runOps, List.getElem_cons_zero] using this)) ?_
+    intro i hi
+    have := hok (i + 1) (by simp; omega)
+    simpa [runOps, List.getElem_cons_succ, List.take_succ_cons] using this
+
+example : SeqReachLog drvCrypto cfg0 (runOpsLog drvCrypto (initNode drvCrypto cfg0 0) [] exLogHistory).1
+      (runOpsLog drvCrypto (initNode drvCrypto cfg0 0) [] exLogHistory).2 ∧
+    (runOpsLog drvCrypto (initNode drvCrypto cfg0 0) [] exLogHistory).2 = [0, 1, 2, 3] ∧
+    (runOpsLog drvCrypto (initNode drvCrypto cfg0 0) [] exLogHistory).1.chain.height = 2 ∧
+    chainTxs (runOpsLog drvCrypto (initNode drvCrypto cfg0 0) [] exLogHistory).1.chain.store 2
+      = [.put 100 1, .put 200 2, .cas 300 none 3, .put 1 4] :=
+  ⟨seqReachLog_of_runOps drvCrypto cfg0 exLogHistory _ [] (SeqReachLog.init 0) (by decide +kernel), by decide +kernel,
+   by decide +kernel, by decide +kernel⟩
 
 /-! ## 7. replicas: rejected blocks, verdicts, proposer/replica agreement -/
 
